@@ -2,7 +2,14 @@
 
 Scenario lines (the Lean model `lean/DesperModel/Tree.lean` reads the same text):
 
-    newmap m<k>                          m<k> = ResourceMap()
+    newmap m<k> [split=<c><sub|inst>] [eq=<label>|ueq=<label>] [falsy=1]
+                                         m<k> = ResourceMap() - or an instance of a subclass whose key delimiter
+                                         is <c> (class attribute of the subclass: sub, instance attribute: inst),
+                                         whose instances compare equal / hash alike by label (eq), compare equal
+                                         and are unhashable (ueq), are falsy (__bool__ False, __len__ 0)
+    (newhandle takes eq= / ueq= / falsy= too.  The library must treat resources by identity.)
+    In path tokens '/' separates the names and '~' stands for a '/' INSIDE a name (possible when the map's
+    delimiter is not '/'); composite keys are rendered with the delimiter of the map the operation is called on.
     newhandle h<k> <valkind> [fail=i,j]  h<k> = a Handle whose load() counts and returns <valkind>; its i-th, j-th
                                          invocations raise instead (OSError, KeyError, AttributeError, ... - observed
                                          as `raised LoadError`, identified by identity of the exception object)
@@ -110,7 +117,39 @@ SINGLETON_KINDS = ['none', 'zero', 'empty', 'false', 'tuple', 'zerof', 'bytes']
 LOADER_ERRORS = [OSError, KeyError, AttributeError, RuntimeError, LookupError]
 
 
-def make_handle(kind, fails=(), raised=None):
+def parse_opts(toks):
+    return dict(t.split('=', 1) for t in toks if '=' in t)
+
+
+def value_semantics(ns, opts):
+    """add scripted value equality / hashing / truthiness to a class namespace (`eq=L`: equal and hashing alike
+    by label, `ueq=L`: equal by label and unhashable, `falsy=1`: __bool__ False and __len__ 0)"""
+    label = opts.get('eq', opts.get('ueq'))
+    if label is not None:
+        ns['_label'] = label
+        ns['__eq__'] = lambda self, o: getattr(o, '_label', None) == self._label
+        ns['__ne__'] = lambda self, o: getattr(o, '_label', None) != self._label
+        ns['__hash__'] = (lambda self: hash(self._label)) if 'eq' in opts else None
+    if opts.get('falsy') == '1':
+        ns['__bool__'] = lambda self: False
+        ns['__len__'] = lambda self: 0
+    return ns
+
+
+def make_map(opts):
+    """a ResourceMap, or an instance of a user subclass (key delimiter, value semantics)"""
+    ns = value_semantics({}, opts)
+    split = opts.get('split')
+    if split and split[1:] == 'sub':
+        ns['split_char'] = split[0]
+    cls = type('UserMap', (ResourceMap,), ns) if ns else ResourceMap
+    m = cls()
+    if split and split[1:] == 'inst':
+        m.split_char = split[0]
+    return m
+
+
+def make_handle(kind, fails=(), raised=None, opts=None):
     """a Handle whose load() counts its invocations (`tries`), raises on the scripted ones (`fails`, 1-based;
     the exception objects are recorded in `raised`) and otherwise returns a <kind> value (`loaded`)"""
     make = KINDS[kind]
@@ -130,6 +169,9 @@ def make_handle(kind, fails=(), raised=None):
             v = make()
             self.loaded.append(v)
             return v
+    ns = value_semantics({}, opts or {})
+    if ns:
+        return type('UserHandle', (CountingHandle,), ns)()
     return CountingHandle()
 
 
@@ -147,16 +189,30 @@ BAD_KEYS = [None, 5, b'a/b', ('a', 'b')]
 
 
 def comps(tok):
+    """the names of a path token ('~' inside a name is a '/')"""
     assert tok.startswith(':'), tok
-    return tok[1:].split('/')
+    return [c.replace('~', '/') for c in tok[1:].split('/')]
+
+
+def enc(name):
+    return name.replace('/', '~') if isinstance(name, str) else repr(name)
 
 
 def show_key(k):
-    return 'None' if k is None else ':' + k
+    return 'None' if k is None else ':' + enc(k)
 
 
 def show_path(p):
-    return ':' + '/'.join(p) if p else '-'
+    return ':' + '/'.join(enc(c) for c in p) if p else '-'
+
+
+def key_for(m, tok):
+    """the composite key for the names of a path token, spelled with the delimiter of the map it is given to"""
+    cs = comps(tok)
+    d = m.split_char
+    if any(d in c for c in cs):
+        raise HarnessError(f'a name of {tok} contains the delimiter {d!r} of the map')
+    return d.join(cs)
 
 
 def reserved(k):
@@ -169,7 +225,7 @@ def alphabet_of(lines):
         for t in ln.split():
             if t.startswith(':'):
                 s.update(comps(t))
-    return sorted(s)
+    return sorted(s, key=enc)
 
 
 class Run:
@@ -238,11 +294,11 @@ class Run:
         self.obs.append(f'map {show_path(path)} {self.name_m(m)} parent={self.name_m(m.parent)} '
                         f'key={show_key(m.key)} nlayers={len(layers)}')
         for li, layer in enumerate(layers):
-            for k in sorted(layer):
+            for k in sorted(layer, key=enc):       # the order of the scenario's spelling of the names
                 h = layer[k]
                 self.obs.append(f'hnd {show_path(path)} {li} {show_key(k)} {self.name_h(h)} '
                                 f'parent={self.name_m(h.parent)} key={show_key(h.key)}')
-        for k in sorted(m.maps):
+        for k in sorted(m.maps, key=enc):
             self.dump(depth - 1, path + [k], m.maps[k])
 
     def sdump(self, depth, path, s):
@@ -291,7 +347,7 @@ class Run:
                 self.obs.append('unbound')
                 return
             try:
-                v = self.menv[t[2]].get(t[3][1:])
+                v = self.menv[t[2]].get(key_for(self.menv[t[2]], t[3]))
             except Exception as e:       # noqa
                 self.obs.append(f'bound raised {self.exc_name(e)}')
                 return
@@ -312,14 +368,16 @@ class Run:
             if m is None:
                 self.obs.append('unbound')
                 return
-            self.guard(lambda: m.__setitem__(t[2][1:], NON_RESOURCES[int(t[3][1:]) % len(NON_RESOURCES)]()))
+            key = key_for(m, t[2])
+            self.guard(lambda: m.__setitem__(key, NON_RESOURCES[int(t[3][1:]) % len(NON_RESOURCES)]()))
         elif kind == 'set':
             m = self.menv.get(t[1])
             v = self.hs.get(int(t[3][1:])) if t[3][0] == 'h' else self.menv.get(t[3])
             if m is None or v is None:
                 self.obs.append('unbound')
                 return
-            self.guard(lambda: m.__setitem__(t[2][1:], v))
+            key = key_for(m, t[2])
+            self.guard(lambda: m.__setitem__(key, v))
         elif kind in ('layer', 'clear', 'dump'):
             m = self.menv.get(t[1])
             if m is None:
@@ -371,13 +429,14 @@ class Run:
             if m is None:
                 self.obs.append('unbound')
             elif kind == 'getitem':
-                self.emit_item('item', lambda: m[t[2][1:]], False)
+                key = key_for(m, t[2])
+                self.emit_item('item', lambda: m[key], False)
             elif kind == 'chain':
                 self.emit_chain('item', m, comps(t[2]), lambda c, k: c[k],
                                 lambda c: isinstance(c, ResourceMap))
             else:
                 try:
-                    v = m.get(t[2][1:], SENTINEL)
+                    v = m.get(key_for(m, t[2]), SENTINEL)
                 except Exception as e:   # noqa
                     self.obs.append(f'got raised {self.exc_name(e)}')
                     return
@@ -479,7 +538,7 @@ class Run:
             if t[0] == 'newmap':
                 k = int(t[1][1:])
                 assert t[1] not in self.menv
-                m = ResourceMap()
+                m = make_map(parse_opts(t[2:]))
                 self.menv[t[1]] = m
                 self.mdecl.append(k)
                 self.names[id(m)] = t[1]
@@ -487,7 +546,7 @@ class Run:
             elif t[0] == 'newhandle':
                 k = int(t[1][1:])
                 assert k not in self.hs
-                self.hs[k] = make_handle(t[2], parse_fails(t[3:]), self.loader_excs)
+                self.hs[k] = make_handle(t[2], parse_fails(t[3:]), self.loader_excs, parse_opts(t[3:]))
             elif t[0] == 'op':
                 self.safe_op(t[1:])
             else:
